@@ -20,12 +20,14 @@ Suffixes == [k \in SufKeys |-> SufList[CHOOSE i \in DOMAIN SufList : SufList[i].
 
 VARIABLES l,        \* next trace line
           mem,      \* learned map: typed word -> [cand : the preferred candidate, typed : the text it was learned on]
-          cur       \* the list most recently shown (line number), 0 = none
-vars == <<l, mem, cur>>
+          cur,      \* the list most recently shown (line number), 0 = none
+          seen      \* typed text -> preselected index shown for it since the last learning commit
+vars == <<l, mem, cur, seen>>
 
 PreserveChars == {".", "?", "!", ",", ":", ";", "-", "_", ")", "}", "]", "'", "\""}
 Empty == [k \in {} |-> [cand |-> <<>>, typed |-> <<>>]]
-Init == l = 1 /\ mem = Empty /\ cur = 0
+NoneSeen == [t \in {} |-> 0]
+Init == l = 1 /\ mem = Empty /\ cur = 0 /\ seen = NoneSeen
 
 E == Rec[l]
 Is(ev) == l <= Len(Rec) /\ E.ev = ev
@@ -33,9 +35,9 @@ Range(s) == {s[i] : i \in DOMAIN s}
 Fail(msg) == PrintT(<<"TRACE-FAIL", l, msg>>) /\ FALSE
 Require(cond, msg) == IF cond THEN TRUE ELSE Fail(msg)
 
-Reset   == Is("reset")   /\ mem' = Empty /\ cur' = 0 /\ l' = l + 1
+Reset   == Is("reset")   /\ mem' = Empty /\ cur' = 0 /\ seen' = NoneSeen /\ l' = l + 1
 \* a new context over the same user-data directory: the learned map must survive
-Restart == Is("restart") /\ UNCHANGED mem /\ cur' = 0 /\ l' = l + 1
+Restart == Is("restart") /\ UNCHANGED <<mem, seen>> /\ cur' = 0 /\ l' = l + 1
 
 \* What wraps the candidates of a typed text: the transliteration of the split's leading / trailing
 \* punctuation (facts E.tlp[k+1] / E.tls[k+1] = okkhor transliteration of the first / last k typed characters),
@@ -71,11 +73,16 @@ List ==
                Require((\E x \in rd : wrap(x) \in Range(E.cands)) =>
                           ((\E x \in rd : shown = wrap(x)) \/ (Last(E.typed) \in PreserveChars /\ E.sel = E.psel)),
                        "base word has a learned choice, the joined candidate is offered, but it is not preselected")
+    \* "committing the preselected candidate changes nothing" (nor does finishing, restarting, or typing other words):
+    \* only a learning commit may change what is preselected for a text
+    /\ (Focus # "C01" /\ E.typed \in DOMAIN seen) =>
+           Require(E.sel = seen[E.typed], "the preselected candidate of a text changed although nothing was learned in between")
+    /\ seen' = [t \in DOMAIN seen \cup {E.typed} |-> IF t = E.typed THEN E.sel ELSE seen[t]]
     /\ cur' = l /\ UNCHANGED mem /\ l' = l + 1
 
 \* committing a candidate other than the preselected one learns it; the preselected one changes nothing
 \* a panic while typing or committing is never allowed (C01)
-Panic == Is("panic") /\ Fail("the engine panicked") /\ UNCHANGED <<mem, cur>> /\ l' = l + 1
+Panic == Is("panic") /\ Fail("the engine panicked") /\ UNCHANGED <<mem, cur, seen>> /\ l' = l + 1
 
 Commit ==
     /\ Is("commit") /\ cur # 0
@@ -85,15 +92,21 @@ Commit ==
               THEN [k \in DOMAIN mem \cup {KeyOf(L.typed)} |->
                         IF k = KeyOf(L.typed) THEN [cand |-> StripCand(L.cands[E.idx + 1]), typed |-> L.typed] ELSE mem[k]]
               ELSE mem
+    \* a learning commit for the word K can change the preselection of the texts whose word is K or begins with K (K as base)
+    /\ seen' = (IF E.idx # Rec[cur].sel
+                THEN LET K == KeyOf(Rec[cur].typed)
+                         keep == {t \in DOMAIN seen : ~(Len(KeyOf(t)) >= Len(K) /\ SubSeq(KeyOf(t), 1, Len(K)) = K)}
+                     IN [t \in keep |-> seen[t]]
+                ELSE seen)
     /\ cur' = 0 /\ l' = l + 1
 
 \* the on-disk store is at all times absent or a JSON object of strings, holding exactly what was learned
 File ==
     /\ Is("file")
     /\ Require(Focus = "C01" \/ E.state \in {"absent", "valid"}, "the on-disk store is not a JSON object of strings")
-    /\ UNCHANGED <<mem, cur>> /\ l' = l + 1
+    /\ UNCHANGED <<mem, cur, seen>> /\ l' = l + 1
 
-Finish == Is("finish") /\ cur' = 0 /\ UNCHANGED mem /\ l' = l + 1
+Finish == Is("finish") /\ cur' = 0 /\ UNCHANGED <<mem, seen>> /\ l' = l + 1
 
 Next == Reset \/ Restart \/ List \/ Commit \/ File \/ Finish \/ Panic
 Spec == Init /\ [][Next]_vars
